@@ -509,3 +509,9 @@ func stack() string {
 	n := runtimeStack(buf)
 	return string(buf[:n])
 }
+
+// IsCrash reports whether a recovered panic value is the kill sentinel.
+func IsCrash(r interface{}) bool {
+	_, ok := r.(crashSentinel)
+	return ok
+}
